@@ -251,7 +251,7 @@ func c11Integrated(e *Env) {
 			answer(p, e.Weighted("outcome", []int{4, 1, 1, 2}))
 			e.Overlap = true
 		case 3:
-			d := []time.Duration{5 * time.Millisecond, 20 * time.Millisecond, 60 * time.Millisecond, 250 * time.Millisecond, 1100 * time.Millisecond, 6 * time.Second}[e.Draw(6)]
+			d := []time.Duration{5 * time.Millisecond, 20 * time.Millisecond, 60 * time.Millisecond, 250 * time.Millisecond, 1100 * time.Millisecond, 6 * time.Second, 12 * time.Second}[e.Draw(7)]
 			e.Event("advance %v", d)
 			sleep(d)
 		}
